@@ -205,6 +205,22 @@ def _run(a, prop, mod, plan, nshards, timeout, shard_env, scratch, t0):
     return _verdict(a, prop, mod, plan, results, inconclusive, extras, workers, t0)
 
 
+def _pick_samples(samples, trivial):
+    """one sample per kind of case (id prefix: fixed corpus, random, schedule, history ...), then fill up"""
+    out, seen = [], set()
+    for kind, smp in samples + trivial:
+        if kind not in seen and len(out) < 8:
+            seen.add(kind)
+            out.append({"case_kind": kind, **smp} if isinstance(smp, dict) else smp)
+    for kind, smp in samples:
+        if len(out) >= 6:
+            break
+        cand = {"case_kind": kind, **smp} if isinstance(smp, dict) else smp
+        if cand not in out:
+            out.append(cand)
+    return out or [s for _, s in trivial[:3]]
+
+
 def _replay_env(path):
     try:
         with open(path) as f:
@@ -227,7 +243,9 @@ def _verdict(a, prop, mod, plan, results, inconclusive, extras, workers, t0):
         if r.get("nontrivial"):
             nontrivial.add(r["digest"])
         if r.get("sample") is not None:
-            (samples if r.get("nontrivial") else trivial_samples).append(r["sample"])
+            import re as _re
+            kind = _re.match(r"[A-Za-z_-]*", str(r.get("id", ""))).group(0)
+            (samples if r.get("nontrivial") else trivial_samples).append((kind, r["sample"]))
         if r.get("harness_error"):
             inconclusive.append(f"case {r['id']}: harness error: {r['harness_error'][-500:]}")
         for why in r.get("inconclusive", []):
@@ -320,7 +338,7 @@ def _verdict(a, prop, mod, plan, results, inconclusive, extras, workers, t0):
             "evaluations": len(results),
             "distinct_nontrivial": len(nontrivial),
             "rule": mod.RULE,
-            "samples": (samples[:4] + trivial_samples[:1]) or trivial_samples[:3],
+            "samples": _pick_samples(samples, trivial_samples),
             "monitor_evaluations": dict(sorted(monitors.items())),
             "observed_tags": dict(sorted(tags.items())),
             "known_findings_observed": {
